@@ -672,11 +672,23 @@ def parse_equation(equation: str) -> List[Symbol]:
             # previous entry
             if name in functions:
                 assert symbol == functions[name]
+            # A variable of the same name would be overwritten (and lost)
+            elif name in symbols:
+                raise ParserError(
+                    f"'{name}' is used both as a variable and as a function in: {equation}"
+                )
             # Otherwise, store
             else:
                 symbols[name] = symbol
                 functions[name] = symbol
             continue
+
+        # Conversely, a variable cannot share its name with a function called
+        # in the same statement
+        if name in functions:
+            raise ParserError(
+                f"'{name}' is used both as a variable and as a function in: {equation}"
+            )
 
         # Update endogenous variables with the equation and code information
         # from above
